@@ -23,7 +23,23 @@ import scipy.sparse
 
 from common import (Stream, budget, enc_op, canon_op_json, to_gq, from_gq, dyadic, rng_for, show)
 
-OPEN_STATEMENTS = []
+OPEN_STATEMENTS = [
+    'sz_indices_spec: jw_sz_indices enumerates exactly once the basis states of the S_z (and particle number) sector, both '
+    'branches, arbitrary injective up/down maps: not proved (the ingredients combinations_spec and the bits of sums of '
+    'distinct powers are); exhaustive for n_qubits <= 4 (quick, sample to 8) / <= 10 (thorough) through two oracles',
+    'restrict_is_projection at the matrix level (M[ix_(I, I)] is the compression to the eigenspace): the index-set theorem '
+    'number_indices_spec and number_operator_diag are proved on masks; invariance of the particle number under the bit '
+    'reversal between masks and big-endian matrix indices is not; every restricted entry is compared with the Spec by the '
+    'restrict stream',
+    'iterate_basis_spec: each documented determinant exactly once (only iterate_basis_reference_first is proved)',
+    'number_preserving matrix = compression of the operator to the determinant basis and totality (no exception on admissible '
+    'input): only the sign / target loop (build_term_op_sound) is proved; the lookup (argsort / searchsorted) is covered by the '
+    'number-preserving stream',
+    'expectation_cbs_list_sound: expectation value = <s|F|s> for normal-ordered operators with at most two-body terms: only '
+    'the agreement of the vector and list conventions (expectation_vector_is_list) is proved',
+    'sz_diag, s_squared = S-S+ + Sz(Sz+1): covered by the special-operators stream (Spec formula equality on all basis states)',
+    'jw_get_ground_state_at_particle_number: float contract over eigsh / eigh only',
+]
 TRUSTED = [
     'C10: numpy / scipy.sparse indexing (numpy.ix_, fancy indexing, csc construction, argsort, searchsorted) is '
     'mirrored by list functions in the Model and tied by the correspondence streams only; normal_ordered (input of the '
